@@ -340,6 +340,7 @@ static Bytes hostile_other(Rng &r, std::string &desc)
         desc = "storm";
         Bytes b;
         int kind = r.below(3), n = r.range(500, 4000);
+        if(kind == 0) n = r.range(300, 1200);     // every new port name costs sixteen channel records (about 270 KB): 1200 names keep a worker below 400 MB
         for(int i = 0; i < n; i++)
         {
             b.push_back(0);
@@ -424,6 +425,7 @@ static RunOut exercise(Case &c, Rng &r, const Bytes &file, int presel_song, int 
     }
     unsigned long long maxreq = g_alloc.max_req; long long peak = g_alloc.peak - 0;
     if(maxreq > (256ull << 20)) c.violation("alloc:single-request-over-256MiB:opn2_openData", vfmt("largest single allocation request %llu bytes for an input of %zu bytes", maxreq, file.size()));
+    if(getenv("VERIF_C01_PEAK") && peak - (long long)g_alloc.live > (64ll << 20)) fprintf(stderr, "[peak] case %ld input %zu bytes fmt-class load peak %lld MiB maxreq %llu allocs %lld rc %d\n", c.k, file.size(), (peak) >> 20, maxreq, (long long)g_alloc.n_allocs, out.load_rc);
     (void)peak;
     if(out.load_rc != 0 && out.load_rc != -1) c.violation("oracle:load-return-value", vfmt("opn2_openData returned %d", out.load_rc));
     const char *err = NULL;
@@ -525,6 +527,7 @@ static RunOut exercise(Case &c, Rng &r, const Bytes &file, int presel_song, int 
         }
         if(g_w.optnum("trace", 0)) fprintf(stderr, "[trace]   after op %d: tell=%g atEnd=%d loop_ever=%d\n", op, opn2_positionTell(d), opn2_atEnd(d), (int)loop_ever);
         if(g_alloc.max_req > (256ull << 20)) c.violation(vfmt("alloc:single-request-over-256MiB:followup-%d", op), vfmt("allocation request of %llu bytes in follow-up op %d", (unsigned long long)g_alloc.max_req, op));
+        if(getenv("VERIF_C01_PEAK") && g_alloc.peak > (64ll << 20)) { fprintf(stderr, "[peak] case %ld after op %d: peak live %lld MiB (input %zu bytes, %lld allocations, largest %llu)\n", c.k, op, (long long)g_alloc.peak >> 20, file.size(), (long long)g_alloc.n_allocs, (unsigned long long)g_alloc.max_req); g_alloc.peak = 0; }
         if(g_w.violations_in_case > 20) break;
     }
     API("opn2_close", opn2_close(d));
